@@ -99,6 +99,101 @@ where
     merged.into_inner().unwrap()
 }
 
+use serde_json::json;
+use std::io::Write;
+
+pub fn cli(run: &dyn Fn(&Cfg) -> Option<Report>, replay_fn: &dyn Fn(&Cfg, &Value) -> Option<Report>) {
+    let args: Vec<String> = std::env::args().collect();
+    if args.len() < 2 {
+        eprintln!("usage: rdpverif <Cxx> [--tier quick|thorough] [--seed N] [--threads N] [--out file] [--replay file] [--scale f]");
+        std::process::exit(2);
+    }
+    let prop = args[1].clone();
+    let mut tier = Tier::Quick;
+    let mut seed: u64 = 1;
+    let mut threads: usize = 16;
+    let mut out: Option<String> = None;
+    let mut replay: Option<String> = None;
+    let mut scale = 1.0f64;
+    let mut only_class: Option<u64> = None;
+    let mut cpu_limit = 20u64;
+    let mut wall_limit = 3 * 3600u64;
+    let mut i = 2;
+    while i < args.len() {
+        let v = args.get(i + 1).cloned().unwrap_or_default();
+        match args[i].as_str() {
+            "--tier" => tier = if v == "thorough" { Tier::Thorough } else { Tier::Quick },
+            "--seed" => seed = v.parse().unwrap_or(1),
+            "--threads" => threads = v.parse().unwrap_or(16),
+            "--out" => out = Some(v),
+            "--replay" => replay = Some(v),
+            "--scale" => scale = v.parse().unwrap_or(1.0),
+            "--only-class" => only_class = v.parse().ok(),
+            "--verbose" => {
+                mon::set_quiet(false);
+                i -= 1;
+            }
+            "--cpu-limit" => cpu_limit = v.parse().unwrap_or(20),
+            "--wall-limit" => wall_limit = v.parse().unwrap_or(10800),
+            x => {
+                eprintln!("unknown arg {}", x);
+                std::process::exit(2);
+            }
+        }
+        i += 2;
+    }
+    let cfg = Cfg {
+        prop: prop.clone(),
+        tier,
+        seed,
+        threads,
+        profile: if cfg!(debug_assertions) { "dbg".into() } else { "rel".into() },
+        scale,
+        only_class,
+    };
+    // an empty trust store: 'untrusted certificate' is then deterministic and building a TLS connector is cheap
+    std::env::set_var("SSL_CERT_FILE", "/dev/null");
+    std::env::set_var("SSL_CERT_DIR", "/nonexistent-rdpverif");
+    mon::install_panic_hook();
+    mon::install_death_recorder(2);
+    mon::start_watchdog(cpu_limit, wall_limit);
+    let t0 = std::time::Instant::now();
+    let rep = if let Some(path) = replay {
+        // the replayed case runs on this thread: put it under the CPU watchdog and the death recorder
+        mon::register_thread(0);
+        mon::begin_case(0, 0, 0, 0);
+        let txt = std::fs::read_to_string(&path).expect("read replay file");
+        let v: Value = serde_json::from_str(&txt).expect("parse replay file");
+        let case = v.get("replay").cloned().unwrap_or(v);
+        replay_fn(&cfg, &case)
+    } else {
+        run(&cfg)
+    };
+    let rep = match rep {
+        Some(r) => r,
+        None => {
+            eprintln!("unknown property {}", prop);
+            std::process::exit(2);
+        }
+    };
+    let mut j = rep.to_json();
+    j["property"] = json!(prop);
+    j["profile"] = json!(cfg.profile);
+    j["seed"] = json!(seed);
+    j["tier"] = json!(if tier == Tier::Quick { "quick" } else { "thorough" });
+    j["wall_s"] = json!(t0.elapsed().as_secs_f64());
+    let s = serde_json::to_string(&j).unwrap();
+    match out {
+        Some(p) => {
+            let mut f = std::fs::File::create(&p).expect("create out");
+            f.write_all(s.as_bytes()).unwrap();
+        }
+        None => println!("{}", s),
+    }
+    // the library under test prints diagnostics to stdout; the verdict travels in the JSON only
+    std::process::exit(0);
+}
+
 pub fn run_property(cfg: &Cfg) -> Option<Report> {
     props::run(cfg)
 }
